@@ -318,9 +318,9 @@ def _unchecked_min(vals: list[RealValue]):
         if x < result:
             result = x
         elif (x == result
-            and isinstance(x, Float) and isinstance(result, Float)
-            and x.s and not result.s):
-            result = x  # x is -0, result is +0 → prefer -0 for min
+            and isinstance(x, Float) and x.s
+            and not (isinstance(result, Float) and result.s)):
+            result = x  # x is -0, result is +0 (or an unsigned zero) → prefer -0 for min
     return result
 
 def _unchecked_max(vals: list[RealValue]):
@@ -340,9 +340,9 @@ def _unchecked_max(vals: list[RealValue]):
         if x > result:
             result = x
         elif (x == result
-            and isinstance(x, Float) and isinstance(result, Float)
-            and not x.s and result.s):
-            result = x  # x is +0, result is -0 → prefer +0 for max
+            and isinstance(result, Float) and result.s
+            and not (isinstance(x, Float) and x.s)):
+            result = x  # x is +0 (or an unsigned zero), result is -0 → prefer +0 for max
     return result
 
 def _eval_min(arg, *args):
